@@ -92,7 +92,7 @@ class Factor:
     def logaddexp(self, other):
         newdom = self.domain.merge(other.domain)
         factor1 = self.expand(newdom)
-        factor2 = self.expand(newdom)
+        factor2 = other.expand(newdom)
         return Factor(newdom, np.logaddexp(factor1.values, factor2.values))
 
     def max(self, attrs = None):
